@@ -158,7 +158,7 @@ package mutating
 //@ spec func inNamesBefore(names []corev1.ResourceName, n corev1.ResourceName, k int) bool = exists i int :: 0 <= i && i < k && i < len(names) && names[i] == n
 
 // the summary of a container = its requests and limits restricted to the given extended resource names, nil when empty
-//@ func getContainerExtendedResourcesRequirement [C13]
+//@ func getContainerExtendedResourcesRequirement [C13,C14]
 //@   ensures #nil: result == nil <==> (container == nil || (forall i int :: 0 <= i && i < len(resourceNames) ==> !has(container.Resources.Requests, resourceNames[i]) && !has(container.Resources.Limits, resourceNames[i])))
 //@   ensures #fresh: result != nil ==> fresh(result) && fresh(result.Requests) && fresh(result.Limits) && result.Requests != result.Limits
 //@   ensures #requests: result != nil ==> (forall n corev1.ResourceName :: {has(result.Requests, n)} {val(result.Requests, n)} has(result.Requests, n) == (inNames(resourceNames, n) && has(container.Resources.Requests, n)) && (has(result.Requests, n) ==> val(result.Requests, n) == val(container.Resources.Requests, n)))
